@@ -429,3 +429,34 @@ func InspectFunc(fd *ast.FuncDecl, f func(ast.Node) bool) {
 		ast.Inspect(fd.Body, f)
 	}
 }
+
+// RetVal returns the i-th result of a return, looking through the spill that
+// go/ssa introduces in functions with defers (`*tN = v; rundefers; t = *tN; return t`).
+func RetVal(ret *ssa.Return, i int) ssa.Value {
+	if i >= len(ret.Results) {
+		return nil
+	}
+	v := ret.Results[i]
+	u, ok := v.(*ssa.UnOp)
+	if !ok || u.Op != token.MUL {
+		return v
+	}
+	al, ok := u.X.(*ssa.Alloc)
+	if !ok {
+		return v
+	}
+	// last store to the alloc in the same block before the load
+	var last ssa.Value
+	for _, in := range ret.Block().Instrs {
+		if in == ssa.Instruction(u) {
+			break
+		}
+		if st, ok := in.(*ssa.Store); ok && st.Addr == al {
+			last = st.Val
+		}
+	}
+	if last != nil {
+		return last
+	}
+	return v
+}
